@@ -16,6 +16,13 @@ Rev(q) == [k \in 1..Len(q) |-> q[Len(q) + 1 - k]]
 AllIn(q, S) == \A k \in 1..Len(q) : q[k] \in S
 Sets == {A, Compl(A)}
 
+\* --- the run functions agree with their textbook recursive definitions
+RECURSIVE RunRec(_, _, _)
+RunRec(q, k, S) == IF k <= Len(q) /\ q[k] \in S THEN 1 + RunRec(q, k + 1, S) ELSE 0
+RECURSIVE RunBackRec(_, _, _)
+RunBackRec(q, k, S) == IF k >= 1 /\ q[k] \in S THEN 1 + RunBackRec(q, k - 1, S) ELSE 0
+RunLaws == grp = "tok" => \A S \in Sets : /\ \A k \in 1..(Len(s) + 1) : Run(s, k, S) = RunRec(s, k, S)
+                                         /\ \A k \in 0..Len(s) : RunBack(s, k, S) = RunBackRec(s, k, S)
 \* --- sets
 SetLaws == grp = "set" =>
            /\ Compl(Union(A, B)) = Diff(Compl(A), B)
